@@ -1530,7 +1530,7 @@ func main() {
 			"prefix and range iterators starting at or before deleted keys under programs that Seek backwards - to deleted keys, their truncations, the range start, nil - and Seek after exhaustion; all five stores, every batch holding each key once), " +
 			"mopfull/moppartial (upsidedown's merge operator called directly). " +
 			"A sequence case is non-trivial when at least one batch ran and at least one read returned something (a value, or an iterator position that was valid).",
-		ShardSize: 120,
+		ShardSize: 90, // 8 shards in the quick tier, evaluated in parallel
 		Workers:   8,
 	}, gen, exec)
 }
